@@ -83,7 +83,7 @@ def _ir_for(harness, lib_sources=(), extra_c=(), defines=(), tag=None):
     procs = []
     for src, nm in jobs:
         o = os.path.join(BUILD, '%s.%s.%s.part.ll' % (base, key, nm.replace('.', '_')))
-        cmd = ['clang++-14'] + CLANG_FLAGS + ['-I' + REPO + '/include', '-I' + os.path.join(VERIF, 'harness')] + \
+        cmd = ['clang++-14'] + CLANG_FLAGS + ['-I' + REPO + '/include', '-I' + REPO + '/src', '-I' + os.path.join(VERIF, 'harness')] + \
               ['-D' + d for d in defines] + ['-S', '-emit-llvm', src, '-o', o]
         procs.append((subprocess.Popen(cmd, stdout=subprocess.PIPE, stderr=subprocess.PIPE, text=True), cmd, o))
     for c in shim_paths:
@@ -133,12 +133,12 @@ def _native_lib_objects():
     return objs
 
 
-def native_so(harness, defines=(), with_lib=True, sanitize=False):
+def native_so(harness, defines=(), with_lib=True, sanitize=False, exclude=()):
     with _Lock('so.' + harness):
-        return _native_so(harness, defines, with_lib, sanitize)
+        return _native_so(harness, defines, with_lib, sanitize, exclude)
 
 
-def _native_so(harness, defines=(), with_lib=True, sanitize=False):
+def _native_so(harness, defines=(), with_lib=True, sanitize=False, exclude=()):
     """shared object with the harness entry points linked against the current library sources"""
     hpath = os.path.join(VERIF, 'harness', harness)
     key = file_hash(hpath, extra=repo_hash() + ','.join(defines) + str(sanitize))
@@ -147,8 +147,8 @@ def _native_so(harness, defines=(), with_lib=True, sanitize=False):
     if os.path.exists(out):
         return out
     _prune(base + '.', key)
-    objs = native_lib_objects() if with_lib else []
-    cmd = ['g++', '-std=c++11', '-O1', '-fPIC', '-shared', '-I' + REPO + '/include', '-I' + os.path.join(VERIF, 'harness')] + \
+    objs = [o for o in (native_lib_objects() if with_lib else []) if not any(o.endswith('.%s.o' % e) for e in exclude)]
+    cmd = ['g++', '-std=c++11', '-O1', '-fPIC', '-shared', '-I' + REPO + '/include', '-I' + REPO + '/src', '-I' + os.path.join(VERIF, 'harness')] + \
           ['-D' + d for d in defines] + [hpath] + objs + ['-lgsl', '-lgslcblas', '-lm', '-o', out]
     sh(cmd)
     return out
